@@ -132,7 +132,13 @@ def TEXTJOIN(delimiter, ignore_empty, *args):
         gen = (words for words in utils.iflatten(args) if words is not None)
     else:
         gen = (words if words is not None else '' for words in utils.iflatten(args))
-    return delimiter.join(gen)
+    words = []
+    for item in gen:
+        if isinstance(item, error.XLError):
+            return item
+        # numbers and logicals are joined as CONCATENATE writes them
+        words.append(item if isinstance(item, string_types) else str(item))
+    return delimiter.join(words)
 
 
 @dispatcher.register_for('LEFT', 'LEFTB')
